@@ -20,11 +20,16 @@ def correspond(ctx, name, reqs, canon=None, jobs=8, nontrivial=None):
     kinds = collections.Counter()
     sizes = collections.Counter()
     distinct = set()
+    limited = 0
     for k, (rq, a, b) in enumerate(zip(reqs, m, i)):
         if canon:
             a, b = canon(rq[0], a), canon(rq[0], b)
         kinds[rq[0] + ":" + outcome_kind(b)] += 1
         sizes[min(len(enc(rq[1])) // 50 * 50, 2000)] += 1
+        if isinstance(b, Err) and b.kind == "RecursionError":
+            # CPython's recursion limit is a resource bound the model does not have: counted, not compared
+            limited += 1
+            continue
         if isinstance(a, Err) and a.kind in MODEL_FAULTS:
             diffs.append((k, rq, a, b))
             continue
@@ -41,6 +46,7 @@ def correspond(ctx, name, reqs, canon=None, jobs=8, nontrivial=None):
     for k, v in sizes.items():
         st["request_size_histogram"][str(k)] = st["request_size_histogram"].get(str(k), 0) + v
     st["distinct_results"] += len(distinct)
+    st["resource_limited(RecursionError)"] = st.get("resource_limited(RecursionError)", 0) + limited
     ctx.add_eval(len(reqs), len(distinct),
                  samples=[{"op": reqs[0][0], "arg": reqs[0][1], "model": repr(m[0]), "impl": repr(i[0])}])
     return diffs
